@@ -862,3 +862,35 @@ def selector_prefix(P, body, O, cs, side):
         bits.append((len(body.dom.get(c.bb, ())), "?" if v is None else ("1" if (v != neg) else "0")))
     bits.sort()
     return "".join(b for _, b in bits)
+
+
+def pointers_to(body, targets):
+    """locals that hold a reference to one of the `targets` locals (through moves and reborrows); flow-insensitive"""
+    targets = set(targets)
+    ptrs = set()
+    changed = True
+    while changed:
+        changed = False
+        for l, defs in body.defs.items():
+            if l in ptrs:
+                continue
+            for d in defs:
+                if d[2] != "assign":
+                    continue
+                rv = d[3]
+                hit = False
+                if rv["k"] in ("ref", "rawptr"):
+                    pl = rv["pl"]
+                    if pl["l"] in targets and not any(p["k"] == "deref" for p in pl["p"]):
+                        hit = True
+                    elif pl["l"] in ptrs and pl["p"] and pl["p"][0]["k"] == "deref" and len(pl["p"]) == 1:
+                        hit = True
+                elif rv["k"] in ("use", "copyderef") and rv.get("op", {}).get("k") in ("copy", "move"):
+                    pl = rv["op"]["pl"]
+                    if pl["l"] in ptrs and not pl["p"]:
+                        hit = True
+                if hit:
+                    ptrs.add(l)
+                    changed = True
+                    break
+    return ptrs
